@@ -168,33 +168,40 @@ def count_nonzero_cells(c):
 
 def wellformed(E, S, label, filtered=True):
     """structure: subs integer nnz x N inside shape, pairwise distinct rows; vals nnz x 1;
-    with filtered=True every stored value must be provably non-zero."""
-    import pyttb as ttb
+    with filtered=True every stored value must be provably non-zero.
+    (labels are mode-independent so that a symbolic failure and its concrete replay match)"""
     subs = np.asarray(S.subs)
     vals = np.asarray(S.vals)
-    if isinstance(S, ttb.sptenmat):
-        shape = S.shape
-    else:
-        shape = S.shape
+    shape = S.shape
     n = len(shape)
     nnz = vals.shape[0] if vals.ndim >= 1 and vals.size else 0
     if nnz == 0:
-        E.true(subs.size == 0, f"{label}: empty vals but subs has {subs.size} entries")
-        E.true(S.nnz == 0, f"{label}: nnz reported {S.nnz} for empty tensor")
+        E.true(subs.size == 0, f"{label}: wellformed: empty vals => empty subs", f"subs has {subs.size} entries")
+        E.true(S.nnz == 0, f"{label}: wellformed: nnz == 0 for empty", f"nnz reported {S.nnz}")
         return
     ok = (subs.ndim == 2 and subs.shape == (nnz, n) and vals.ndim == 2 and vals.shape == (nnz, 1))
-    E.true(ok, f"{label}: one value per stored subscript (subs {subs.shape}, vals {vals.shape}, order {n})")
+    E.true(ok, f"{label}: wellformed: one value per stored subscript", f"subs {subs.shape}, vals {vals.shape}, order {n}")
     if not ok:
         return
-    E.true(subs.dtype.kind in "iu", f"{label}: integer subscripts (dtype {subs.dtype})")
-    inside = all(0 <= int(subs[r, k]) < int(shape[k]) for r in range(nnz) for k in range(n)) if subs.dtype.kind in "iu" else False
-    E.true(inside, f"{label}: subscripts inside shape {tuple(shape)}: {subs.tolist()}")
-    rows = [tuple(r) for r in subs.tolist()]
-    E.true(len(set(rows)) == len(rows), f"{label}: distinct subscripts: {rows}")
-    E.true(S.nnz == nnz, f"{label}: nnz == stored entries")
+    flat = subs.ravel().tolist()
+    isint = subs.dtype.kind in "iu" or all(isinstance(v, (int, np.integer)) and not isinstance(v, bool) for v in flat)
+    E.true(isint, f"{label}: wellformed: integer subscripts", f"dtype {subs.dtype}, e.g. {flat[:3]}")
+    try:
+        rows = [tuple(int(v) for v in r) for r in subs.tolist()]
+        integral = all(int(v) == v for v in flat)
+    except (TypeError, ValueError):
+        rows, integral = None, False
+    if rows is None or not integral:
+        E.true(False, f"{label}: wellformed: subscripts are whole numbers", f"{subs.tolist()}")
+        return
+    inside = all(0 <= r[k] < int(shape[k]) for r in rows for k in range(n))
+    E.true(inside, f"{label}: wellformed: subscripts inside shape", f"shape {tuple(shape)}: {rows}")
+    E.true(len(set(rows)) == len(rows), f"{label}: wellformed: distinct subscripts", f"{rows}")
+    E.true(S.nnz == nnz, f"{label}: wellformed: nnz == stored entries", f"{S.nnz} vs {nnz}")
     if filtered:
+        allnz = True
         for r in range(nnz):
-            E.true(vals[r, 0] != 0, f"{label}: no explicit zero stored")
+            allnz = E.true(vals[r, 0] != 0, f"{label}: wellformed: no explicit zero stored") and allnz
 
 
 # ---------------------------------------------------------------------------------------
